@@ -1,6 +1,6 @@
 (* C16 — scoped settings are restored on every exit from their block.  Property theorems only. *)
 From Coq Require Import List Arith Bool.
-From Spox Require Import Settings SettingsFacts.
+From Spox Require Import Settings SettingsFacts SettingsFacts2.
 Import ListNotations.
 
 (* Any sequence of with-blocks / decorated calls of the three settings, nested in any order, whose bodies complete,
@@ -35,3 +35,33 @@ Theorem C16_nofinally_refuted :
   exists p s, scoped p = true /\ cur (fst (exec_nofinally s (Try [p]))) <> cur s.
 Proof. exact nofinally_refuted. Qed.
 Print Assumptions C16_nofinally_refuted.
+
+(* Frame: a block touches no setting but its own - every other setting is exactly what the body left. *)
+Theorem C16_block_leaves_other_settings_alone :
+  forall k v body s j, distinct_setting k j ->
+  get (cur (fst (exec s (Block k v body)))) j = get (cur (fst (run_seq exec (upd s k v) body))) j.
+Proof. exact block_frame. Qed.
+Print Assumptions C16_block_leaves_other_settings_alone.
+
+(* Inside a block, after ANY completed prefix of scoped statements (nested blocks of the same or other settings,
+   caught exceptions), the settings in force are again exactly the block's: inner blocks restore the OUTER value. *)
+Theorem C16_setting_in_force_after_any_scoped_prefix :
+  forall k v l s, forallb scoped l = true -> snd (run_seq exec (upd s k v) l) = Normal ->
+  exists s1, run_seq exec (upd s k v) (l ++ [Obs]) = (s1, Normal) /\ hd (0,0,0) (log s1) = set (cur s) k v.
+Proof. exact obs_in_block_after_scoped_prefix. Qed.
+Print Assumptions C16_setting_in_force_after_any_scoped_prefix.
+
+(* Why tests without exceptions cannot settle the property: on every program in which nothing raises, managers
+   WITHOUT try/finally give exactly the same final settings, outcome and observations as the protected ones. *)
+Theorem C16_exception_free_programs_cannot_tell :
+  forall l, forallb noraise l = true ->
+  forall s0, run_prog_nofinally s0 l = run_prog s0 l /\ snd (fst (run_prog s0 l)) = Normal.
+Proof. exact noraise_programs_cannot_tell. Qed.
+Print Assumptions C16_exception_free_programs_cannot_tell.
+
+(* ... and with one they restore nothing: the unprotected block ends in the state in which its body raised. *)
+Theorem C16_nofinally_block_skips_restore :
+  forall k v body s e, snd (run_seq exec_nofinally (upd s k v) body) = Raised e ->
+  exec_nofinally s (Block k v body) = run_seq exec_nofinally (upd s k v) body.
+Proof. exact nofinally_block_skips_restore. Qed.
+Print Assumptions C16_nofinally_block_skips_restore.
